@@ -1,5 +1,9 @@
 //! mc-chaincert: serves C03 (see /verif/DESIGN.md §4)
 mod c03;
+mod oracle;
+mod pool;
+mod seam_a;
+mod seam_b;
 
 fn main() {
     let ctx = mc_core::Ctx::from_args();
